@@ -26,7 +26,7 @@ CLAIMED = {
     "C05": {
         "level": "exploration",
         "technique": TECH + "refinement against a twin graph driven by torch.autograd under seeded schedules",
-        "text": "Every scenario instantiates the same program twice; the real backward()/mtl_backward() with Constant/Sum/Mean runs on one graph and torch.autograd.backward with the equivalent grad_tensors on the twin; all .grad fields must agree within a forward error bound, for all chunk sizes and schedules drawn.",
+        "text": "Every scenario instantiates the same program twice; the real backward()/mtl_backward() with Constant/Sum/Mean runs on one graph (the Sum/Mean object has often been used before on matrices with other row counts; Iterable arguments come as list, tuple or one-shot generator) and torch.autograd.backward with the equivalent grad_tensors on the twin; all .grad fields must agree within a forward error bound, for all chunk sizes and schedules drawn.",
         "note": "Trusted: torch.autograd as the reference implementation. Requested-but-unreachable inputs compare as zeros (torch leaves None).",
         "ref": "DESIGN.md §3 C05",
     },
@@ -47,14 +47,14 @@ CLAIMED = {
     "C08": {
         "level": "exploration",
         "technique": TECH + "same call under two set-iteration schedules and with ghost leaves must deposit the same update (layout clause only)",
-        "text": "Decides only the layout clause of C08 (column permutation / zero-column invariance as it arises from the S1 schedule): one world executed under different effective column orders and with ghost leaves that influence nothing; deposits must agree and ghosts must receive zeros, for every deterministic aggregator and PCGrad/Random under replayed draws.",
+        "text": "Decides only the layout clause of C08 (column permutation / zero-column invariance as it arises from the S1 schedule): one world executed under different effective column orders and with ghost leaves that influence nothing (in 20% of the runs one wide ghost of 2e4..2e5 elements; 8% of the runs are tall clustered worlds with 26..32 near-identical rows in float32); deposits must agree and ghosts must receive zeros, for every deterministic aggregator and PCGrad/Random under replayed draws.",
         "note": "Not decided: orthogonal equivariance A(JQ)=A(J)Q and the row-span clause (pure algebra, no seam). GradDrop excluded (its draw is per column).",
         "ref": "DESIGN.md §3 C08",
     },
     "C11": {
         "level": "exploration",
         "technique": TECH + "seeded call histories over aggregator instances with corrupted-Jacobian (F4) and numerical-kernel failure (F5) injection; fresh-instance replay as oracle",
-        "text": "Decides the history/purity/seed/rejection/fault-path clauses: bytes of the input are unchanged by every call (also rejected and faulted ones), a clean call equals bitwise a fresh instance on the same matrix in a world with no history, NaN/Inf/non-2-d/row-count faults are rejected with ValueError, and injected SVD/eigh/pinv/QP failures either raise or return finite data of the right shape/dtype and never poison the next call.",
+        "text": "Decides the history/purity/seed/rejection/fault-path clauses: bytes of the input are unchanged by every call (also rejected and faulted ones), a clean call equals bitwise a fresh instance on the same matrix in a world with no history (instances are called across row counts and dtypes), NaN/Inf/non-2-d/row-count faults are rejected with ValueError, and injected SVD/eigh/pinv/QP/Clarabel failures either propagate, become a ValueError, or yield finite data of the right shape/dtype -- never a swallowed fault followed by another crash -- and never poison the next call.",
         "note": "Not decided: positive homogeneity and the 27-orders-of-magnitude range (pure input-space clauses). Trusted: bitwise reproducibility of LAPACK/quadprog/Clarabel in one process configuration (re-verified by the determinism self-test).",
         "ref": "DESIGN.md §3 C11",
     },
@@ -75,14 +75,14 @@ CLAIMED = {
     "C16": {
         "level": "fault_enumeration",
         "technique": TECH + "Byzantine row corruption (F6) enumerated over subset sizes and a fault palette; reference models of trimmed mean / multi-Krum as oracle",
-        "text": "For each honest matrix every corruption count <= b (resp. f) and every palette kind (1e12x outliers, colluding duplicates, copies of honest rows/extremes, zeros, sign flips) is injected; the output must equal the reference model, stay within the honest range per coordinate (TrimmedMean), be the mean of exactly k distinct lowest-score rows (Krum); too few rows must be rejected.",
+        "text": "For each honest matrix (m<=9 workers, or a federation of 26..34 mostly near-identical workers) every corruption count <= b (resp. f) and every palette kind (1e12x outliers, colluding duplicates, copies of honest rows/extremes, zeros, sign flips) is injected; the output must equal the reference model, stay within the honest range per coordinate (TrimmedMean), be the mean of exactly k distinct lowest-score rows (Krum); too few rows must be rejected.",
         "note": "Which rows are hit is seeded, kinds and counts are enumerated. Score/order-statistic ties below 1e-6 relative are counted as ambiguous and assert nothing.",
         "ref": "DESIGN.md §3 C16",
     },
     "C18": {
         "level": "exploration",
         "technique": TECH + "the simulator owns torch.randperm/rand/randn (S2): projection-order schedules, sign draws and weight draws; reference model under the recorded draws + finite candidate set",
-        "text": "Decides the PCGrad, GradDrop and Random clauses: PCGrad under scheduler-chosen projection orders equals the paper's algorithm on the recorded orders and belongs to the finite candidate set (exhaustive orders for m<=4 in the thorough tier); GradDrop equals the sign-branch formula dictated by the recorded uniforms incl. boundary draws; Random's weights are strictly positive and sum to one.",
+        "text": "Decides the PCGrad, GradDrop and Random clauses: PCGrad under scheduler-chosen projection orders is compared with the paper's algorithm on the recorded orders; for m<=4 the verdict is membership in the exhaustive candidate set of all order combinations (the whole order product is enumerated for fixed matrices in the thorough tier), for m in {5,6} a mismatch is judged after five alternative ways of using the draws; every GradDrop coordinate must be a keep-positive or keep-negative sum with the leaked share (the branch must be explained by the recorded uniforms under one of two conventions); Random's weights are strictly positive and sum to one.",
         "note": "Not decided: the MGDA and CAGrad clauses (deterministic, no seam). If the RNG seam is not reached the check degrades to the seam-agnostic candidate-set oracle and says so in the evidence.",
         "ref": "DESIGN.md §3 C18",
     },
@@ -96,7 +96,7 @@ CLAIMED = {
     "C20": {
         "level": "fault_enumeration",
         "technique": TECH + "invalid-argument / non-grad-parameter / rejecting-aggregator faults (F1-F3) enumerated at every position x seeded S1 schedules; bitwise .grad snapshots",
-        "text": "For each sampled world and valid call every fault kind of the statement is injected at every position it can take, under several set-iteration schedules; whenever the call raises, every leaf's .grad must be the same object with the same bytes as before (or still None). Calls that do not raise are not judged here.",
+        "text": "For each sampled world and valid call (explicit lists or one/both parameter groups defaulted; list/tuple/generator forms) every fault kind of the statement is injected at every position it can take -- plus a parameter frozen after an earlier successful call on the same graph -- under several set-iteration schedules; whenever the call raises, every tensor's .grad must be the same object with the same bytes as before (or still None). Calls that do not raise are not judged here.",
         "note": "Whether a given kind must be refused is not part of C20; the evidence reports per kind how many injected calls raised and how many had gradients in flight (partial-write window).",
         "ref": "DESIGN.md §3 C20",
     },
